@@ -13,7 +13,7 @@ PROP = {'lean': 'MpsProps.C03',
                'Mps.AlgGen.gen_cmpSignRound5',
                'Mps.AlgGen.gen_frostKeygenChecks',
                'Mps.AlgGen.gen_cmpKeygenChecks'],
- 'suites': [{'name': 'sess-tamper', 'quick': 45, 'thorough': 900}],
+ 'suites': [{'name': 'sess-tamper', 'quick': 45, 'thorough': 900, 'shards': 8}],
  'propfields': {'sess-tamper': ['ok']},
  'level_text': 'Proof + judged sessions: outputs are verify-guarded and Feldman/decommit/echo-protected (theorem list); a tamper catalogue generated '
                'from the real wire messages (every CBOR field: zeroed, re-randomised, bit-flipped, truncated, extended, copied from another message; '
